@@ -129,4 +129,43 @@ for oname, make in OBJECTS:
                 fails.append(dict(case, kind="payload-runs", what=f"the payload ran {runs} times"))
             if not same(obj, loaded):
                 fails.append(dict(case, kind="model", what="the reloaded model differs from the original"))
+# the same unchanged input wrapped and injected several times in one process (check, then inject; two payloads from one base file):
+# every output is the original plus *its* payload only
+for oname, make in OBJECTS[:3]:
+    src = os.path.join(CWD, "model.pt")
+    for p in (src, COUNTER):
+        if os.path.exists(p):
+            os.remove(p)
+    obj = make()
+    torch.save(obj, src)
+    orig = dict(members(src))
+    for k, payload in enumerate(PAYLOADS + PAYLOADS[:1]):
+        n += 1
+        case = {"object": oname, "payload": k, "overwrite": False, "kind": "repeated-injection", "round": k}
+        out = os.path.join(CWD, f"injected{k}.pt")
+        try:
+            w = PyTorchModelWrapper(src)
+            _ = w.pickled                                   # a read before the injection, as the CLI's check-then-inject does
+            PyTorchModelWrapper(src).inject_payload(payload, out, injection="insertion", overwrite=False)
+            new = dict(members(out))
+        except Exception as e:  # noqa
+            fails.append(dict(case, what=f"raises {type(e).__name__}: {e}"[:200]))
+            continue
+        for nm, a in orig.items():
+            if nm.endswith("/data.pkl"):
+                p = fk.Pickled.load(a)
+                p.insert_python_exec(payload)
+                if new.get(nm) != p.dumps():
+                    fails.append(dict(case, what=f"injection #{k + 1} from the same unchanged file: the model pickle is not the original with the one injected call added "
+                                                 f"({sum(1 for o in fk.Pickled.load(new.get(nm, a)) if o.name == 'REDUCE') - sum(1 for o in fk.Pickled.load(a) if o.name == 'REDUCE')} calls added)"))
+        if os.path.exists(COUNTER):
+            os.remove(COUNTER)
+        try:
+            torch.load(out, weights_only=False)
+            runs = len(open(COUNTER).read()) if os.path.exists(COUNTER) else 0
+            if runs != 1:
+                fails.append(dict(case, what=f"injection #{k + 1} from the same unchanged file: loading runs the payload {runs} times"))
+        except Exception as e:  # noqa
+            fails.append(dict(case, what=f"torch.load raises {type(e).__name__}: {e}"[:160]))
+        os.remove(out)
 print(json.dumps({"bounded": True, "cases": n, "torch": torch.__version__, "n_failures": len(fails), "failures": fails[:60]}))
